@@ -2602,7 +2602,11 @@ func getDefault(n *node) int {
 	return -1
 }
 
-func isBinType(v reflect.Value) bool { return v.IsValid() && v.Kind() == reflect.Ptr && v.IsNil() }
+// A type is exported as a nil pointer value `(*T)(nil)`, which is not addressable; a
+// variable of pointer type holding nil is exported as `reflect.ValueOf(&v).Elem()`, which is.
+func isBinType(v reflect.Value) bool {
+	return v.IsValid() && v.Kind() == reflect.Ptr && v.IsNil() && !v.CanAddr()
+}
 
 // isType returns true if node refers to a type definition, false otherwise.
 func (n *node) isType(sc *scope) bool {
